@@ -23,7 +23,7 @@ WTESTS = {"groups": ['parse'], "tests": ['tests/dec'], "counts": ["C01.parse."]}
 REQUIRED = {"orientation:forward": 20, "orientation:reverse": 20, "alias-alias-pair": 20, "self-pair": 5, "unknown-daughter": 20, "self-conjugate-daughter": 20,
             "aliased-daughter": 20, "source-from-CopyDecay": 10, "cdecay-without-source": 10, "decay+cdecay-one-name": 10, "decay+cdecay>=2-names": 5,
             "chargeconj-statements:1-2": 10, "chargeconj-statements>=6": 5, "switch-off:>3-tables+applicable": 10, "cdecay-before-source-block": 10,
-            "chargeconj-after-use": 10, "tables>=4": 20, "photos-and-params-in-source": 20, "corpus-cdecay-statements": 100, "switch:off-then-on-same-instance": 20, "real-name-pair": 20}
+            "chargeconj-after-use": 10, "tables>=4": 20, "photos-and-params-in-source": 20, "corpus-cdecay-statements": 100, "two-aliases-of-a-self-conjugate-particle": 5, "two-copies-of-one-source": 5, "switch:off-then-on-same-instance": 20, "real-name-pair": 20}
 ASSUMPTIONS = ["each name is the subject of at most one CDecay; ChargeConj declarations are consistent (a partial involution); no ChargeConj pairs an alias with a real self-conjugate name",
                "relative order of derived tables is not compared"]
 
@@ -67,6 +67,17 @@ def gen_file(ctx):
             cc[a] = a
             cc_st.append({"k": "ChargeConj", "a": a, "b": a})
             hits.append("self-pair")
+    if r.random() < 0.15 and selfc:
+        # two aliases of one self-conjugate particle, declared conjugates of each other
+        n = r.choice(selfc)
+        a, b = f"My{n}", f"Myanti-{n}"
+        if a not in aliases and b not in aliases and L.label_ok(a, g.models) and L.label_ok(b, g.models):
+            aliases[a] = n
+            aliases[b] = n
+            alias_st += [{"k": "Alias", "a": a, "b": n}, {"k": "Alias", "a": b, "b": n}]
+            cc[a] = b
+            cc_st.append({"k": "ChargeConj", "a": a, "b": b})
+            hits.append("two-aliases-of-a-self-conjugate-particle")
     conj = L.file_conj(cc)
 
     def daughters():
@@ -92,6 +103,8 @@ def gen_file(ctx):
     ntab = r.choice([1, 2, 3, 4, 5, 8])
     for _ in range(ntab):
         m = r.choice(list(aliases)) if aliases and r.random() < 0.5 else r.choice(pairs)[0]
+        if "two-aliases-of-a-self-conjugate-particle" in hits and not any(x.startswith("Myanti-") or x[2:] in selfc for x in used) and r.random() < 0.7:
+            m = next(x for x in aliases if x[2:] in selfc and not x.startswith("Myanti-"))
         if m in used:
             continue
         used.add(m)
@@ -121,6 +134,10 @@ def gen_file(ctx):
         cdecays.append({"k": "CDecay", "name": newbar})
         used |= {new, newbar}
         hits.append("source-from-CopyDecay")
+        if r.random() < 0.5:
+            copies.append({"k": "CopyDecay", "a": new + "2", "b": old})     # a second copy of the same source
+            used.add(new + "2")
+            hits.append("two-copies-of-one-source")
     # CDecay without a source table
     if r.random() < 0.3:
         for n, c in r.sample(pairs, 3):
